@@ -1,5 +1,660 @@
-"""pyvc.arr -- symbolic arrays (families) and sparse matrices.  (filled in below)"""
+"""pyvc.arr -- symbolic arrays ("families"), concatenations, lists with symbolic length and sparse COO matrices.
+
+A SymArray is a shape of symbolic ints plus an element function idx -> symbolic scalar; it has no bound on its
+size.  Elementwise operations compose element functions; gathers compose with the index array; boolean masks
+become *guards* (order-free selections that may only be consumed by concatenate / len / sparse constructors).
+"""
+import z3
+
+from . import sym
+from .sym import SB, SC, SI, SR, Unsupported, Undecided, FreshInt, FreshReal, check, ite, eq
+
+I = z3.IntSort()
+R = z3.RealSort()
+B = z3.BoolSort()
+
+
+def _si(x):
+    return SI.lift(x)
+
+
+def scalar_kind(v):
+    if isinstance(v, SC) or isinstance(v, complex):
+        return "c"
+    if isinstance(v, SB) or isinstance(v, bool):
+        return "b"
+    if isinstance(v, SI) or isinstance(v, int):
+        return "i"
+    return "r"
 
 
 class SymArray:
-    pass
+    """shape: tuple of SI; fn(*idx: SI) -> scalar; guard(k) -> z3 Bool or None (masked 1-D selection)"""
+    __array_priority__ = 1000
+
+    def __init__(self, shape, fn, guard=None, kind=None, name=None):
+        self.shape = tuple(_si(x) for x in shape)
+        self._fn = fn
+        self.guard = guard
+        self.kind = kind
+        self.name = name
+        self._memo = {}
+
+    # ---- construction helpers
+    @staticmethod
+    def input(name, shape, kind="r"):
+        """an arbitrary input array: uninterpreted function(s) of the index"""
+        nd = len(shape)
+        if kind == "c":
+            fr = z3.Function(name + "_re", *([I] * nd), R)
+            fi = z3.Function(name + "_im", *([I] * nd), R)
+            fn = lambda *i: SC(SR(fr(*[x.e for x in i])), SR(fi(*[x.e for x in i])))
+        elif kind == "i":
+            f = z3.Function(name, *([I] * nd), I)
+            fn = lambda *i: SI(f(*[x.e for x in i]))
+        elif kind == "b":
+            f = z3.Function(name, *([I] * nd), B)
+            fn = lambda *i: SB(f(*[x.e for x in i]))
+        else:
+            f = z3.Function(name, *([I] * nd), R)
+            fn = lambda *i: SR(f(*[x.e for x in i]))
+        return SymArray(shape, fn, kind=kind, name=name)
+
+    @staticmethod
+    def fresh(base, shape, kind="r"):
+        return SymArray.input(sym.fresh_name(base), shape, kind)
+
+    @staticmethod
+    def const(shape, v):
+        return SymArray(shape, lambda *i: v, kind=scalar_kind(v))
+
+    ndim = property(lambda s: len(s.shape))
+    size = property(lambda s: _prod_shape(s.shape))
+
+    def at(self, *idx):
+        idx = tuple(_si(i) for i in idx)
+        if len(idx) != self.ndim:
+            raise Unsupported(f"index arity {len(idx)} for {self.ndim}-d array")
+        key = tuple(i.e.get_id() for i in idx)
+        if key not in self._memo:
+            self._memo[key] = self._fn(*idx)
+        return self._memo[key]
+
+    def __len__(self):
+        raise TypeError("len() of a symbolic array: the len model must be bound (T4)")
+
+    def map(self, f, kind=None):
+        return SymArray(self.shape, lambda *i: f(self.at(*i)), self.guard, kind)
+
+    def opaque(self, name):
+        """T6 cut at array level: a fresh input array; its definition is revealed per index on demand"""
+        probe = self.at(*[SI(0)] * self.ndim)
+        k = scalar_kind(probe)
+        new = SymArray.fresh(name, self.shape, k)
+        new.guard = self.guard
+        new.defn = self
+        sym.ctx().ghost.setdefault("opaque_arr", {})[name] = new
+        return new
+
+    def reveal_at(self, *idx):
+        return eq(self.at(*idx), self.defn.at(*idx))
+
+    # ---- elementwise arithmetic
+    def _ew(self, o, f):
+        if isinstance(o, Cat):
+            return NotImplemented
+        if isinstance(o, SymArray):
+            if self.ndim == o.ndim:
+                _shape_ob(self.shape, o.shape)
+                g = _and_guard(self.guard, o.guard)
+                return SymArray(self.shape, lambda *i: f(self.at(*i), o.at(*i)), g)
+            if self.ndim == 2 and o.ndim == 1:      # (n,2) op (2,)  numpy broadcasting on the last axis
+                return SymArray(self.shape, lambda i, k: f(self.at(i, k), o.at(k)), self.guard)
+            if self.ndim == 1 and o.ndim == 2:
+                return SymArray(o.shape, lambda i, k: f(self.at(k), o.at(i, k)), o.guard)
+            raise Unsupported("broadcast")
+        if isinstance(o, (list, tuple)):
+            raise Unsupported("array op python sequence")
+        return SymArray(self.shape, lambda *i: f(self.at(*i), o), self.guard)
+
+    def __add__(self, o): return self._ew(o, lambda a, b: a + b)
+    def __radd__(self, o): return self._ew(o, lambda a, b: b + a)
+    def __sub__(self, o): return self._ew(o, lambda a, b: a - b)
+    def __rsub__(self, o): return self._ew(o, lambda a, b: b - a)
+    def __mul__(self, o): return self._ew(o, lambda a, b: a * b)
+    def __rmul__(self, o): return self._ew(o, lambda a, b: b * a)
+    def __truediv__(self, o): return self._ew(o, lambda a, b: a / b)
+    def __rtruediv__(self, o): return self._ew(o, lambda a, b: b / a)
+    def __pow__(self, n): return SymArray(self.shape, lambda *i: self.at(*i) ** n, self.guard)
+    def __neg__(self): return SymArray(self.shape, lambda *i: -self.at(*i), self.guard)
+    def __lt__(self, o): return self._ew(o, lambda a, b: a < b)
+    def __le__(self, o): return self._ew(o, lambda a, b: a <= b)
+    def __gt__(self, o): return self._ew(o, lambda a, b: a > b)
+    def __ge__(self, o): return self._ew(o, lambda a, b: a >= b)
+    def __invert__(self): return SymArray(self.shape, lambda *i: ~self.at(*i), self.guard)
+    def __and__(self, o): return self._ew(o, lambda a, b: a & b)
+    def __or__(self, o): return self._ew(o, lambda a, b: a | b)
+    def conjugate(self): return SymArray(self.shape, lambda *i: self.at(*i).conjugate(), self.guard)
+    conj = conjugate
+    real = property(lambda s: SymArray(s.shape, lambda *i: s.at(*i).real, s.guard))
+    imag = property(lambda s: SymArray(s.shape, lambda *i: s.at(*i).imag, s.guard))
+
+    def __eq__(self, o):
+        return self._ew(o, lambda a, b: SB(eq(a, b)))
+
+    def __ne__(self, o):
+        return self._ew(o, lambda a, b: SB(z3.Not(eq(a, b))))
+
+    __hash__ = object.__hash__
+
+    def copy(self):
+        return SymArray(self.shape, self._fn, self.guard, self.kind)
+
+    def astype(self, t):
+        return self
+
+    def get(self):
+        return self
+
+    # ---- indexing
+    def __getitem__(self, key):
+        if isinstance(key, tuple):
+            if len(key) == 2 and self.ndim == 2:
+                a, b = key
+                if isinstance(a, slice) and a == slice(None) and isinstance(b, (int, SI)):
+                    return SymArray(self.shape[:1], lambda k: self.at(k, _si(b)), self.guard)
+                if isinstance(a, (int, SI)) and isinstance(b, (int, SI)):
+                    _idx_ob(a, self.shape[0])
+                    _idx_ob(b, self.shape[1])
+                    return self.at(_si(a), _si(b))
+                if isinstance(a, (int, SI)) and isinstance(b, slice) and b == slice(None):
+                    return SymArray(self.shape[1:], lambda k: self.at(_si(a), k))
+                if isinstance(a, slice) and a == slice(None) and isinstance(b, slice) and b.start is None and b.step is None:
+                    stop = _si(b.stop)
+                    return SymArray((self.shape[0], stop), lambda i, k: self.at(i, k), self.guard)
+            raise Unsupported(f"index {key!r}")
+        if isinstance(key, Cat):
+            raise Unsupported("index by a concatenation")
+        if isinstance(key, SymArray):
+            probe = key.at(*[SI(0)] * key.ndim)
+            if isinstance(probe, SB):   # boolean mask -> guarded selection
+                if self.ndim != 1 or key.ndim != 1:
+                    raise Unsupported("mask on n-d array")
+                _shape_ob(self.shape, key.shape)
+                return SymArray(self.shape, self._fn_at(), _and_guard(self.guard, lambda k: key.at(k).e), self.kind)
+            # gather along axis 0 (obligation: indices in range)
+            if self.ndim == 1:
+                return SymArray(key.shape, lambda *i: self.at(key.at(*i)), key.guard, self.kind)
+            return SymArray(key.shape + self.shape[1:], lambda *i: self.at(key.at(*i[:key.ndim]), *i[key.ndim:]), key.guard, self.kind)
+        if isinstance(key, slice):
+            if self.ndim < 1 or key.step is not None:
+                raise Unsupported("slice")
+            start = _si(key.start) if key.start is not None else SI(0)
+            stop = _si(key.stop) if key.stop is not None else self.shape[0]
+            n = stop - start
+            rest = self.shape[1:]
+            return SymArray((n,) + rest, lambda k, *r: self.at(k + start, *r), self.guard, self.kind)
+        if isinstance(key, (int, SI)):
+            _idx_ob(key, self.shape[0])
+            if self.ndim == 1:
+                return self.at(_si(key))
+            return SymArray(self.shape[1:], lambda *r: self.at(_si(key), *r))
+        raise Unsupported(f"index {key!r}")
+
+    def _fn_at(self):
+        return lambda *i: self.at(*i)
+
+    def __setitem__(self, key, val):
+        """in-place store: the element function becomes an if-then-else (no quantified axiom)"""
+        old = SymArray(self.shape, self._fn, self.guard)
+        old._memo = self._memo
+        writes = sym.ctx().ghost.setdefault("writes", [])
+        if isinstance(key, tuple) and len(key) == 2 and all(isinstance(k, (int, SI)) for k in key) and self.ndim == 2:
+            a, b = _si(key[0]), _si(key[1])
+            _idx_ob(a, self.shape[0])
+            _idx_ob(b, self.shape[1])
+            v = val
+            self._fn = lambda i, k: ite(z3.And(i.e == a.e, k.e == b.e), v, old.at(i, k))
+            writes.append((self, (a, b)))
+        elif isinstance(key, (int, SI)) and self.ndim == 1:
+            a = _si(key)
+            _idx_ob(a, self.shape[0])
+            v = val
+            self._fn = lambda i: ite(i.e == a.e, v, old.at(i))
+            writes.append((self, (a,)))
+        elif isinstance(key, tuple) and len(key) == 2 and isinstance(key[0], slice) and key[0] == slice(None) and isinstance(key[1], (int, SI)) and self.ndim == 2:
+            b = _si(key[1])
+            _idx_ob(b, self.shape[1])
+            v = val
+            if isinstance(v, SymArray):
+                if v.ndim == 1:
+                    self._fn = lambda i, k: ite(k.e == b.e, v.at(i), old.at(i, k))
+                else:
+                    raise Unsupported("column store of n-d value")
+            else:
+                self._fn = lambda i, k: ite(k.e == b.e, v, old.at(i, k))
+            writes.append((self, (None, b)))
+        elif isinstance(key, SymArray) and self.ndim == 1:       # a[idx_array] = scalar
+            if isinstance(val, SymArray):
+                raise Unsupported("scatter of an array")
+            v = val
+            kk = key
+            # membership: exists j: kk[j] == i  -- expressed through the index array's membership predicate
+            mem = getattr(kk, "member", None)
+            if mem is None:
+                raise Unsupported("scatter through an index array without a membership predicate")
+            self._fn = lambda i: ite(mem(i), v, old.at(i))
+            writes.append((self, (kk,)))
+        else:
+            raise Unsupported(f"store {key!r}")
+        self._memo = {}
+
+    # ---- reductions (ghost functions with instantiated axioms)
+    def max(self):
+        return reduce_max(self)
+
+    def any(self):
+        return reduce_any(self)
+
+    def all(self):
+        return ~reduce_any(~self)
+
+    def sum(self):
+        raise Unsupported("sum over a symbolic array (use a ghost-sum loop contract)")
+
+    def flush(self):
+        pass
+
+
+def _prod_shape(shape):
+    r = SI(1)
+    for s in shape:
+        r = r * s
+    return r
+
+
+def _and_guard(g1, g2):
+    if g1 is None:
+        return g2
+    if g2 is None:
+        return g1
+    return lambda k: z3.And(g1(k), g2(k))
+
+
+def _shape_ob(s1, s2):
+    c = sym.ctx()
+    if not c.safety:
+        return
+    for a, b in zip(s1, s2):
+        if a.e.eq(b.e):
+            continue
+        if z3.is_true(z3.simplify(a.e == b.e)):
+            continue
+        check(sym._site("shape_match"), a.e == b.e, kind="safety")
+
+
+def _idx_ob(i, n):
+    c = sym.ctx()
+    if not c.safety:
+        return
+    i = _si(i)
+    g = z3.simplify(z3.And(i.e >= 0, i.e < n.e))
+    if z3.is_true(g):
+        return
+    check(sym._site("index_in_range"), g, kind="safety")
+
+
+def reduce_any(b):
+    """any(b) over a symbolic array: fresh boolean `some`;  some => b(witness) for a Skolem witness in range;
+    instances  b(k) => some  are added for every index constant registered in ctx.ghost['generic']"""
+    c = sym.ctx()
+    probe = b.at(*[SI(0)] * b.ndim)
+    if not isinstance(probe, SB):      # numpy truthiness: element != 0
+        b = b.map(lambda v: SB(z3.Not(eq(v, 0))), kind="b")
+    some = sym.FreshBool("any")
+    w = [SI(FreshInt("wit")) for _ in range(b.ndim)]
+    rng = z3.And(*[z3.And(x.e >= 0, x.e < n.e) for x, n in zip(w, b.shape)])
+    c.ax.append(z3.Implies(some, z3.And(rng, b.at(*w).e)))
+    for g in c.ghost.get("generic", []):
+        if len(g) == b.ndim:
+            rg = z3.And(*[z3.And(x.e >= 0, x.e < n.e) for x, n in zip(g, b.shape)])
+            c.ax.append(z3.Implies(z3.And(rg, b.at(*g).e), some))
+    c.ghost.setdefault("any", []).append((some, b))
+    # `not some` is the universal fact  forall idx in range: not b(idx); instantiated later at generic indices
+    c.ghost.setdefault("univ", []).append((b, lambda idx, b=b, some=some: z3.Implies(
+        z3.And(*[z3.And(x.e >= 0, x.e < n.e) for x, n in zip(idx, b.shape)]), z3.Implies(b.at(*idx).e, some))))
+    return SB(some)
+
+
+def reduce_max(a):
+    """max over a symbolic (non-empty) array: fresh m with  m == a(witness)  and  a(k) <= m  at generic indices"""
+    c = sym.ctx()
+    m = SR(FreshReal("max"))
+    w = [SI(FreshInt("argmax")) for _ in range(a.ndim)]
+    rng = z3.And(*[z3.And(x.e >= 0, x.e < n.e) for x, n in zip(w, a.shape)])
+    c.ax.append(z3.And(rng, m.e == SR.lift(a.at(*w)).e))
+    for g in c.ghost.get("generic", []):
+        if len(g) == a.ndim:
+            rg = z3.And(*[z3.And(x.e >= 0, x.e < n.e) for x, n in zip(g, a.shape)])
+            c.ax.append(z3.Implies(rg, SR.lift(a.at(*g)).e <= m.e))
+    c.ghost.setdefault("max", []).append((m, a, w))
+    return m
+
+
+def univ_instances(idxs):
+    """instances of the universal facts recorded by reductions (any/max) at the given 1-d index terms; for arrays
+    whose trailing dimensions are small constants every trailing position is instantiated"""
+    c = sym.ctx()
+    out = []
+    import itertools as _it
+    for a, inst in c.ghost.get("univ", []):
+        tails = []
+        ok = True
+        for n in a.shape[1:]:
+            v = n.concrete()
+            if v is None or v > 4:
+                ok = False
+                break
+            tails.append(range(v))
+        if not ok:
+            continue
+        for k in idxs:
+            for tl in _it.product(*tails):
+                out.append(inst((k,) + tuple(SI(t) for t in tl)))
+    return out
+
+
+def generic_index(name, *bounds):
+    """a fresh index constant within bounds, registered so that reductions instantiate at it"""
+    c = sym.ctx()
+    idx = tuple(SI(FreshInt(name)) for _ in bounds)
+    for x, n in zip(idx, bounds):
+        c.pc.append(z3.And(x.e >= 0, x.e < _si(n).e))
+    c.ghost.setdefault("generic", []).append(idx)
+    return idx if len(idx) > 1 else idx[0]
+
+
+# ----------------------------------------------------------------------------- concatenation
+
+
+class Cat:
+    """1-D concatenation of 1-D SymArray blocks, consumed block-wise (order inside a block is the block's)"""
+
+    def __init__(self, blocks):
+        self.blocks = list(blocks)
+    ndim = 1
+
+    @property
+    def shape(self):
+        return (self.total(),)
+
+    def total(self):
+        t = SI(0)
+        for b in self.blocks:
+            t = t + b.shape[0]
+        return t
+
+    def _zip(self, o, f):
+        if isinstance(o, Cat):
+            if len(o.blocks) != len(self.blocks):
+                raise Unsupported("concatenations with different block structure")
+            return Cat([f(a, b) for a, b in zip(self.blocks, o.blocks)])
+        if isinstance(o, SymArray):
+            raise Unsupported("concatenation op plain array")
+        return Cat([f(a, o) for a in self.blocks])
+
+    def __getitem__(self, key):
+        if isinstance(key, Cat):     # boolean mask with the same block structure
+            return self._zip(key, lambda b, m: b[m])
+        if isinstance(key, slice):
+            if key.start is not None or key.step is not None:
+                raise Unsupported("slice of concatenation")
+            stop = _si(key.stop)
+            tot = SI(0)
+            out = []
+            for b in self.blocks:
+                tot = tot + b.shape[0]
+                out.append(b)
+                if sym.quick_prove(sym.ctx().hyps(), tot.e == stop.e, 3000):
+                    return Cat(out)
+            raise Undecided("prefix slice of a concatenation does not align with its blocks")
+        raise Unsupported(f"index of concatenation {key!r}")
+
+    def __mul__(self, o): return self._zip(o, lambda a, b: a * b)
+    __rmul__ = __mul__
+    def __truediv__(self, o): return self._zip(o, lambda a, b: a / b)
+    def __add__(self, o): return self._zip(o, lambda a, b: a + b)
+    def __sub__(self, o): return self._zip(o, lambda a, b: a - b)
+    def __neg__(self): return Cat([-b for b in self.blocks])
+    def conjugate(self): return Cat([b.conjugate() for b in self.blocks])
+
+
+def blocks_of(x):
+    return x.blocks if isinstance(x, Cat) else [x]
+
+
+_KORD = {"b": 0, "i": 1, "r": 2, "c": 3}
+
+
+def kind_of(x):
+    """numpy dtype class of a symbolic array/scalar (bool < int < float < complex), inferred from the value types"""
+    if isinstance(x, Cat):
+        ks = [kind_of(b) for b in x.blocks]
+        return max(ks, key=lambda k: _KORD[k]) if ks else "r"
+    if isinstance(x, SymArray):
+        c = sym.ctx()
+        saved = c.safety
+        c.safety = False
+        try:
+            v = x.at(*[SI(FreshInt("probe")) for _ in range(x.ndim)])
+        finally:
+            c.safety = saved
+        return scalar_kind(v)
+    return scalar_kind(x)
+
+
+# ----------------------------------------------------------------------------- python lists with symbolic length
+
+
+class SymList:
+    """a Python list whose length is symbolic (history lists such as d_psi_sq_vals)"""
+
+    def __init__(self, length, fn, name="list"):
+        self.length = _si(length)
+        self.fn = fn
+        self.name = name
+        self.log = []          # ghost: operations applied (append/slice) for contracts
+
+    @staticmethod
+    def input(name):
+        n = SI(z3.Int(name + "_len"))
+        f = z3.Function(name, I, R)
+        sym.assume(n >= 0)
+        return SymList(n, lambda k: SR(f(k.e)), name)
+
+    def append(self, v):
+        old_fn, old_n = self.fn, self.length
+        self.fn = lambda k: ite(k.e == old_n.e, v, old_fn(k))
+        self.length = old_n + 1
+        self.log.append(("append", v))
+
+    def __getitem__(self, key):
+        if isinstance(key, slice):
+            if key.step is not None:
+                raise Unsupported("list slice step")
+            n = self.length
+
+            def norm(x, default):
+                if x is None:
+                    return default
+                x = _si(x)
+                # python semantics: negative -> n + x, clipped to [0, n]
+                y = ite(x.e < 0, n + x, x)
+                y = ite(y.e < 0, SI(0), y)
+                return ite(y.e > n.e, n, y)
+            a = norm(key.start, SI(0))
+            b = norm(key.stop, n)
+            view = SymListView(self, a, b)
+            self.log.append(("slice", a, b))
+            return view
+        key = _si(key)
+        k = ite(key.e < 0, self.length + key, key)
+        check(sym._site("list_index_in_range"), z3.And(k.e >= 0, k.e < self.length.e), kind="safety")
+        return self.fn(k)
+
+    def __len__(self):
+        raise TypeError("len() of a symbolic list: the len model must be bound (T4)")
+
+
+class SymListView:
+    def __init__(self, base, a, b):
+        self.base, self.a, self.b = base, a, b
+        self.fn = base.fn          # snapshot of the element function
+
+
+_WSUM = z3.Function("ListSum", I, I, I, R)     # ghost: sum of list #id over [a, b)
+_LIST_IDS = {}
+
+
+def list_sum(view):
+    """ghost sum over a list view; definitional unfoldings are instantiated by contracts that need them"""
+    lid = _LIST_IDS.setdefault(id(view.base), len(_LIST_IDS))
+    return SR(_WSUM(z3.IntVal(lid), view.a.e, view.b.e))
+
+
+def vlen(x):
+    if isinstance(x, Cat):
+        return x.total()
+    if isinstance(x, SymArray):
+        if x.ndim == 0:
+            raise TypeError("len() of unsized object")
+        return x.shape[0]
+    if isinstance(x, SymList):
+        return x.length
+    if isinstance(x, SymListView):
+        n = x.b - x.a
+        return ite(n.e < 0, SI(0), n)
+    return len(x)
+
+
+# ----------------------------------------------------------------------------- sparse matrices
+
+
+class COO:
+    """sparse matrix = list of blocks (n, guard(k)|None, row(k), col(k), val(k));
+    M[r,c] = sum over blocks and k<n with guard(k), row(k)=r, col(k)=c of val(k)"""
+
+    mesh_axioms = None      # set by the check: valid_mesh instances for index terms
+
+    def __init__(self, blocks, shape, fmt="csr"):
+        self.blocks = list(blocks)
+        self.shape = shape
+        self.fmt = fmt
+        self.history = []
+        self.dtype_kind = "r"
+
+    def copy(self):
+        return COO(self.blocks, self.shape, self.fmt)
+
+    def tocsr(self, copy=False): return self
+    def tocsc(self, copy=False): return self
+    def tolil(self): return self
+    def asformat(self, f): return self
+
+    def __matmul__(self, v):
+        """matrix-vector product for the two shapes the block representation can express without a symbolic sum:
+        (a) v identically zero -> zero vector (linearity); (b) every block has row(k) == k and one entry per row
+        (edge-indexed operators such as the gradient): (M v)[e] = sum over blocks of val_b(e) * v[col_b(e)]."""
+        if not isinstance(v, SymArray) or v.ndim != 1:
+            raise Unsupported("sparse @ non-vector")
+        c = sym.ctx()
+        g = SI(FreshInt("g"))
+        if sym.quick_prove(c.hyps() + [g.e >= 0, g.e < v.shape[0].e], eq(v.at(g), 0), 2000):
+            return SymArray((self.shape[0],), lambda k: SR(0))
+        k = SI(FreshInt("k"))
+        ax = type(self).mesh_axioms([k]) if type(self).mesh_axioms else []
+        for (n, ge, re_, ce, ve) in self.blocks:
+            if ge is not None:
+                raise Unsupported("matvec with guarded blocks")
+            if not sym.quick_prove(c.hyps() + ax + [k.e >= 0, k.e < n.e], z3.And(re_(k).e == k.e, n.e == SI.lift(self.shape[0]).e), 2000):
+                raise Unsupported("matvec: rows are not the block index (needs a MatVec contract / SymVec)")
+        blocks = list(self.blocks)
+
+        def fn(e):
+            tot = None
+            for (n, ge, re_, ce, ve) in blocks:
+                t = ve(e) * v.at(ce(e))
+                tot = t if tot is None else tot + t
+            return tot
+        return SymArray((SI.lift(self.shape[0]),), fn)
+
+    def setmany(self, rows, cols, vals, mesh_axioms=None):
+        """scipy `M[rows, cols] = vals` (assumed contract of _set_many: positions pairwise distinct, every other entry
+        unchanged).  Obligations per written block: identical masks on rows/cols/values (shape conformance), the written
+        positions are exactly those of one assembled block, and that block is the sole contributor to each position."""
+        rb, cb, vb = blocks_of(rows), blocks_of(cols), blocks_of(vals)
+        # numpy/scipy silently drop the imaginary part when complex values are stored into a real matrix
+        check("setmany.no_downcast_of_assigned_values", z3.BoolVal(_KORD[kind_of(vals)] <= _KORD[self.dtype_kind]), kind="safety",
+              note=f"matrix dtype {self.dtype_kind}, assigned {kind_of(vals)}")
+        if not (len(rb) == len(cb) == len(vb)):
+            check("setmany.block_structure", False, kind="safety")
+            raise Undecided("rows/cols/values have different block structure")
+        new = list(self.blocks)
+        c = sym.ctx()
+        for bi_w, (r, cc, v) in enumerate(zip(rb, cb, vb)):
+            k = SI(FreshInt("k"))
+            k2 = SI(FreshInt("k2"))
+            ax = (mesh_axioms([k, k2]) if mesh_axioms else [])
+            g = r.guard(k) if r.guard else z3.BoolVal(True)
+            inr = [k.e >= 0, k.e < r.shape[0].e]
+            for nm, other in (("cols", cc), ("values", v)):
+                go = other.guard(k) if other.guard else z3.BoolVal(True)
+                check(f"setmany.mask_conformance[{bi_w}:{nm}]", z3.And(g == go, other.shape[0].e == r.shape[0].e),
+                      kind="safety", extra=ax + inr)
+            target = None
+            for bi, (n, ge, re_, ce, ve) in enumerate(new):
+                goal = z3.And(n.e == r.shape[0].e, (ge(k) if ge else z3.BoolVal(True)), re_(k).e == r.at(k).e, ce(k).e == cc.at(k).e)
+                if sym.quick_prove(c.hyps() + ax + inr + [g], goal, 3000):
+                    target = bi
+                    break
+            check(f"setmany.positions_align_with_assembled_block[{bi_w}]", z3.BoolVal(target is not None), kind="safety")
+            if target is None:
+                raise sym.PathEnd("setmany: cannot align written positions")
+            for bi, (n, ge, re_, ce, ve) in enumerate(new):
+                clash = z3.And(k2.e >= 0, k2.e < n.e, (ge(k2) if ge else z3.BoolVal(True)), re_(k2).e == r.at(k).e, ce(k2).e == cc.at(k).e)
+                if bi == target:
+                    clash = z3.And(clash, k2.e != k.e)
+                check(f"setmany.sole_contributor[{bi_w}:{bi}]", z3.Not(clash), kind="safety", extra=ax + inr + [g])
+            n, ge, re_, ce, ve = new[target]
+            gw = r.guard
+            if gw is None:
+                new[target] = (n, ge, re_, ce, (lambda kk, v=v: v.at(kk)))
+            else:
+                new[target] = (n, ge, re_, ce, (lambda kk, ve=ve, v=v, gw=gw: ite(gw(kk), v.at(kk), ve(kk))))
+            self.history.append(target)
+        self.blocks = new
+
+    def __setitem__(self, key, x):
+        self.setmany(key[0], key[1], x, mesh_axioms=type(self).mesh_axioms)
+
+
+def coo_from_triple(vals, rows, cols, shape, fmt):
+    vb, rb, cb = blocks_of(vals), blocks_of(rows), blocks_of(cols)
+    if not (len(vb) == len(rb) == len(cb)):
+        check("sparse_ctor.block_structure", False, kind="safety")
+        raise Undecided("sparse constructor: values/rows/cols have different block structure")
+    blocks = []
+    for bi, (v, r, c) in enumerate(zip(vb, rb, cb)):
+        k = SI(FreshInt("k"))
+        g = r.guard(k) if r.guard else z3.BoolVal(True)
+        for nm, other in (("cols", c), ("values", v)):
+            go = other.guard(k) if other.guard else z3.BoolVal(True)
+            triv = (r.guard is None and other.guard is None and other.shape[0].e.eq(r.shape[0].e))
+            if not triv:
+                check(f"sparse_ctor.mask_conformance[{bi}:{nm}]", z3.And(g == go, other.shape[0].e == r.shape[0].e), kind="safety",
+                      extra=[k.e >= 0, k.e < r.shape[0].e])
+        gg = r.guard
+        blocks.append((r.shape[0], gg, (lambda kk, r=r: r.at(kk)), (lambda kk, c=c: c.at(kk)), (lambda kk, v=v: v.at(kk))))
+    m = COO(blocks, shape, fmt)
+    m.dtype_kind = kind_of(vals)
+    return m
